@@ -32,6 +32,20 @@ def classify(which, f):
         return {"crash": type(e).__name__}
 
 
+def ring_through(gen, leads=3):
+    """Actually ring what was accepted: a few leads, a Bob called in the first and a Single in the second."""
+    from wheatley.stroke import Stroke
+    n = max(4, min(80, leads * max(1, getattr(gen, "lead_len", 12)) + 2))
+    for i in range(n):
+        if i == 1:
+            gen.set_bob()
+        if i == n // 2:
+            gen.set_single()
+        if i == n // 2 + 1:
+            gen.set_bob()
+        gen.next_row(Stroke.from_index(i))
+
+
 def impl_parse(req):
     which, s = req["which"], req["s"]
     if which == "peal_speed":
@@ -45,7 +59,7 @@ def impl_parse(req):
         rung = None
         if "ok" in res:
             try:
-                PlaceNotationGenerator(res["ok"][0], res["ok"][1])
+                ring_through(PlaceNotationGenerator(res["ok"][0], res["ok"][1]))
                 rung = True
             except Exception:  # noqa
                 rung = False
@@ -171,12 +185,15 @@ class C18(Prop):
             return f"place notation {req['s']!r} was accepted but no row generator can be built from it"
         if req["which"] == "call" and "ok" in res:
             try:
-                PlaceNotationGenerator(6, "x16", CallDef({int(k): v for k, v in res["ok"]}))
+                cd = CallDef({int(k): v for k, v in res["ok"]})
+                for stage, pn in ((6, "x16"), (6, "x16x16x16,12"), (8, "x18x18x18x18,12"), (5, "5.1.5.1.5,125")):
+                    ring_through(PlaceNotationGenerator(stage, pn, cd, cd))
             except Exception as e:  # noqa
                 return f"call definition {req['s']!r} was accepted but cannot be rung ({type(e).__name__})"
         if req["which"] == "start_row" and "ok" in res:
             try:
                 implrun.helpers.generate_starting_row(max(res["ok"], 4), req["s"])
+                ring_through(PlaceNotationGenerator(max(res["ok"], 4) if res["ok"] <= 16 else 16, "x1", start_row=req["s"]), 2)
             except Exception as e:  # noqa
                 return f"start row {req['s']!r} was accepted but cannot be rung ({type(e).__name__})"
             want = sorted(gens.BELLS[:len(req["s"])])
